@@ -29,6 +29,8 @@ def sql_of(q):
         return "SELECT k, SUM(v) AS s FROM orders GROUP BY k"
     if s == "union":
         return "SELECT k, v FROM orders UNION ALL SELECT k, v FROM orders WHERE v > 0"
+    if s == "items_map":
+        return "SELECT aid, z FROM items"
     if s == "orders_pub":
         return f"SELECT o.k AS k, o.v AS v, p.w AS w FROM orders AS o {kind} JOIN pub AS p ON o.k = p.k"
     if s == "pub_orders":
@@ -50,12 +52,21 @@ def case_of(p, i):
         {"name": "orders", "size_ivs": [[0, n]], "rows": [], "cols": [{"n": "user_id", "t": INT02, "c": None}, {"n": "k", "t": INT01, "c": None},
                                                                        {"n": "v", "t": {"k": "opt", "t": INT02}, "c": None}]},
         {"name": "pub", "size_ivs": [[0, n]], "rows": [], "cols": [{"n": "k", "t": INT01, "c": None}, {"n": "w", "t": {"k": "int", "ivs": [[1, 2]]}, "c": None}]},
+        {"name": "accounts", "size_ivs": [[0, n]], "rows": [], "cols": [{"n": "aid", "t": INT02, "c": "unique"}, {"n": "uid", "t": INT02, "c": None}]},
+        {"name": "items", "size_ivs": [[0, n]], "rows": [], "cols": [{"n": "aid", "t": INT02, "c": None}, {"n": "z", "t": INT01, "c": None}]},
     ]
-    rows = {t: [[cell(v) for v in r] for r in db[t]] for t in ("users", "orders", "pub")}
+    rows = {t: [[cell(v) for v in r] for r in db[t]] for t in ("users", "orders", "pub", "accounts", "items")}
 
     def restrict(u):
-        return {"users": [r for r in rows["users"] if r[0] == u], "orders": [r for r in rows["orders"] if r[0] == u], "pub": rows["pub"]}
-    pu = [["orders", [], "user_id"], ["users", [], "id"]] if p["pudef"] == "direct" else [["orders", [["user_id", "users", "id"]], "id"], ["users", [], "id"]]
+        mine = {r[0] for r in rows["accounts"] if r[1] == u}
+        return {"users": [r for r in rows["users"] if r[0] == u], "orders": [r for r in rows["orders"] if r[0] == u], "pub": rows["pub"],
+                "accounts": [r for r in rows["accounts"] if r[1] == u], "items": [r for r in rows["items"] if r[0] in mine]}
+    if p["pudef"] == "direct":
+        pu = [["orders", [], "user_id"], ["users", [], "id"], ["accounts", [], "uid"], ["items", [["aid", "accounts", "aid"]], "uid"]]
+    else:
+        # every protected table reaches users.id along its foreign keys: one step for orders and accounts, two for items
+        pu = [["orders", [["user_id", "users", "id"]], "id"], ["users", [], "id"], ["accounts", [["uid", "users", "id"]], "id"],
+              ["items", [["aid", "accounts", "aid"], ["uid", "users", "id"]], "id"]]
     return {"id": i, "mode": "pup", "strategy": "Hard", "hash_pu": bool(i % 2), "pu": pu, "sql": sql_of(p["q"]), "params": {},
             "tables": tables, "dbs": [rows] + [restrict(u) for u in (0, 1, 2)], "randoms": [{"noise": 1.0, "cap_seed": 1}], "model": p}
 
@@ -104,7 +115,7 @@ def run(tier):
     h.update(f"{tier}/{C.seed()}".encode())
     num = 1500 if tier == "quick" else 12000
     r = C.tlc("MC_PUPTracking", "MC_PUPTracking.cfg", "pup_sim", workers=1, timeout=3000,
-              extra=["-simulate", f"num={num}", "-depth", "14", "-seed", str(C.seed() + 11)])
+              extra=["-simulate", f"num={num}", "-depth", "20", "-seed", str(C.seed() + 11)])
     if r.rc != 0 or "Error:" in r.out:
         C.require_model_ok(r, "PUPTracking.tla (simulation)")
     m = [l for l in r.out.splitlines() if l.startswith("The number of states generated")]
